@@ -213,6 +213,19 @@ def fn_programs() -> list:
     add("fn_str", {"tag": DEF(["n"], [RETURN(FSTR("id:", V("n"), "!"))])}, [WRITE(CALL("tag", AREAD()))], ain=[4])
     add("fn_sidefx_cmp", {"nxt": DEF([], [AUG("c", "+", I(1)), RETURN(V("c"))], ["c"])}, [ASSIGN("c", I(0)), WRITE(CMP(I(0), ("<", CALL("nxt")), ("<", I(5)))), WRITE(V("c"))])
     add("fn_sidefx_minmax", {"nxt": DEF([], [AUG("c", "+", I(1)), RETURN(V("c"))], ["c"])}, [ASSIGN("c", I(0)), WRITE(CALL("max", CALL("nxt"), I(0))), WRITE(V("c")), WRITE(CALL("abs", CALL("nxt"))), WRITE(V("c"))])
+    # tuple assignment whose right-hand side calls a helper that reads an EARLIER target of the same statement: Python evaluates
+    # the whole right-hand side before it binds any target
+    add("fn_tuple_reads_target", {"boosted": DEF([], [RETURN(BIN("*", V("level"), I(10)))])}, [ASSIGN("level", I(1)), ASSIGN("bonus", I(0))],
+        loop=[ASSIGN("nxt", BIN("+", V("level"), I(3))), TUPLE(["level", "bonus"], [V("nxt"), CALL("boosted")]), WRITE(V("bonus")), WRITE(V("level"))], npass=4)
+    add("fn_tuple_reads_target_setup", {"peek": DEF([], [RETURN(BIN("+", V("pa"), V("pb")))])}, [ASSIGN("pa", I(2)), ASSIGN("pb", I(3)),
+        TUPLE(["pa", "pb", "pc"], [I(20), CALL("peek"), CALL("peek")]), WRITE(V("pa")), WRITE(V("pb")), WRITE(V("pc"))])
+    add("fn_tuple_in_fn", {"peek": DEF([], [RETURN(V("ga"))]), "step": DEF([], [TUPLE(["ga", "gb"], [BIN("+", V("ga"), I(1)), CALL("peek")]), RETURN(V("gb"))], ["ga", "gb"])},
+        [ASSIGN("ga", I(5)), ASSIGN("gb", I(0)), WRITE(CALL("step")), WRITE(CALL("step")), WRITE(V("ga"))])
+    # n-ary min / max mixing a float with several ints (the result type and every intermediate must hold the float)
+    add("fn_nary_minmax", {"cap": DEF(["v"], [RETURN(CALL("min", V("v"), I(100), I(255)))])},
+        [ASSIGN("smp", BIN("*", AREAD(), F(0.5))), WRITE(CALL("max", V("smp"), I(1), I(2))), WRITE(CALL("min", F(0.5), AREAD(), I(7))),
+         WRITE(CALL("max", I(1), V("smp"), I(2), I(0))), WRITE(CALL("min", I(9), I(8), V("smp"))), WRITE(CALL("cap", F(12.5))), WRITE(CALL("cap", BIN("*", AREAD(), F(0.5))))],
+        ain=[5, 3, 25])
     add("fn_list", {"total": DEF(["xs"], [ASSIGN("t", I(0)), FOR("i", CALL("len", V("xs")), [AUG("t", "+", INDEX(V("xs"), V("i")))]), RETURN(V("t"))])}, [ASSIGN("v", LIST(I(1), I(2), AREAD())), WRITE(CALL("total", V("v")))], ain=[4])
     return P
 
@@ -231,6 +244,15 @@ def persist_programs() -> list:
     add("per_list", [ASSIGN("xs", LIST(I(1)))], [APPEND("xs", AREAD()), WRITE(CALL("len", V("xs")))], ain=[5, 6, 7])
     add("per_noloop", [ASSIGN("a", I(1)), WRITE(V("a")), SLEEP(I(3)), WRITE(S("done"))], None)
     add("per_inner_break", [], [FOR("i", I(5), [IF([(CMP(V("i"), ("==", I(2))), [BREAK])]), WRITE(V("i"))]), WRITE(S("after"))])
+    # prologue: a name is changed inside a nested block (or by a helper), THEN a new name is first assigned from it at file scope
+    add("pro_for_then_first", [ASSIGN("level", I(10)), FOR("pi", I(3), [ASSIGN("level", BIN("+", V("level"), I(20)))]), ASSIGN("start", BIN("+", V("level"), I(5))), WRITE(V("start"))],
+        [AWRITE(9, V("start")), AUG("start", "+", I(1))])
+    add("pro_if_then_first", [ASSIGN("base", I(4)), IF([(CMP(AREAD(), (">", I(0))), [ASSIGN("base", I(9))])]), ASSIGN("derived", BIN("*", V("base"), I(2))), WRITE(V("derived"))],
+        [WRITE(V("derived")), SLEEP(V("derived"))], ain=[1])
+    add("pro_while_then_first", [ASSIGN("cnt", I(0)), WHILE(CMP(V("cnt"), ("<", I(4))), [AUG("cnt", "+", I(1))]), ASSIGN("lim", BIN("+", V("cnt"), I(1))), ASSIGN("ok", CMP(V("cnt"), ("==", I(4))))],
+        [WRITE(V("lim")), WRITE(V("ok"))])
+    add("pro_fn_then_first", [ASSIGN("gain", I(1)), EXPR(CALL("tune")), ASSIGN("scaled", BIN("*", V("gain"), I(10)))], [WRITE(V("scaled"))],
+        defs={"tune": DEF([], [ASSIGN("gain", I(7))], ["gain"])})
     add("per_pins", [DWRITE(7, I(1)), AWRITE(9, I(100))], [DWRITE(7, CMP(AREAD(), (">", I(0)))), AWRITE(9, AREAD()), SLEEP(I(10))], ain=[1, 5, 0, 200, 1, 255])
     return P
 
@@ -490,7 +512,7 @@ def route(routing: str, name: str, v: int, tag: str):
     raise ValueError(routing)
 
 
-FOLD_SITES = ("sleep", "range", "arith", "awrite", "index", "strlen", "listlen")
+FOLD_SITES = ("sleep", "range", "arith", "awrite", "index", "strlen", "listlen", "assign", "select-type", "select-arm", "minmax")
 
 
 def fold_snippets() -> list:
@@ -518,6 +540,17 @@ def fold_snippets() -> list:
                     st = [ASSIGN(f"fs{n}", IFEXP(CMP(e, (">", I(5))), S("abcdefgh"), S("abc"))), WRITE(CALL("len", V(f"fs{n}")))]
                 elif site == "listlen":
                     st = [ASSIGN(f"fl{n}", COMP(f"fj{n}", e, V(f"fj{n}"))), WRITE(CALL("len", V(f"fl{n}")))]
+                elif site == "assign":
+                    # the FIRST assignment of a new name computed from the routed one (a declaration with initialiser)
+                    st = [ASSIGN(f"fa{n}", BIN("+", e, I(5))), WRITE(V(f"fa{n}")), AWRITE(9, V(f"fa{n}"))]
+                elif site == "select-type":
+                    # the routed value selects the float arm: the new name must be able to hold it
+                    st = [ASSIGN(f"fa{n}", IFEXP(CMP(e, ("==", I(v))), F(2.5), I(1))), WRITE(V(f"fa{n}"))]
+                elif site == "select-arm":
+                    st = [ASSIGN(f"fa{n}", IFEXP(CMP(e, ("==", I(v))), I(7), I(1))), WRITE(V(f"fa{n}")),
+                          WRITE(BOOLOP("and", CMP(e, ("==", I(v))), CMP(e, ("<", I(v + 1)))))]
+                elif site == "minmax":
+                    st = [ASSIGN(f"fa{n}", CALL("min", e, F(v + 0.5))), WRITE(V(f"fa{n}")), WRITE(CALL("max", e, I(v)))]
                 s = snip(f"fold-{site}-{routing}-{v}", pre + st + post, ain, f"fold:{site}:{routing}", defs)
                 s["routing"], s["site"] = routing, site
                 out.append(s)
@@ -555,6 +588,16 @@ def list_routing_snippets() -> list:
     0 / 2 times, called / uncalled function, through an alias)."""
     out = []
     n = 0
+    # falsy elements: removing / appending 0 (the list is known at transpile time; its tracked copy must follow)
+    for op in ("remove0", "append0", "remove0-var"):
+        n += 1
+        xs = f"lz{n}"
+        pre0 = [ASSIGN(f"zv{n}", I(0))] if op == "remove0-var" else []
+        mut = REMOVE(xs, V(f"zv{n}")) if op == "remove0-var" else (REMOVE(xs, I(0)) if op == "remove0" else APPEND(xs, I(0)))
+        st = [ASSIGN(xs, LIST(I(1), I(0), I(1)))] + pre0 + [mut, WRITE(CALL("len", V(xs))), WRITE(INDEX(V(xs), I(1))), WRITE(INDEX(V(xs), I(-1)))]
+        s = snip(f"listfalsy-{op}", st, [], "listroute:falsy", {})
+        s["routing"], s["site"] = "straight", "list-" + op
+        out.append(s)
     for routing in ("straight", "untaken", "taken", "loop2", "loop0", "fn_called", "fn_uncalled"):
         for op in ("append", "remove"):
             n += 1
